@@ -72,20 +72,34 @@ Definition front_early (fr : front) : bool :=
 
 Definition no_exec : json * list gql_error := (JNull, []).
 
+(* ExecModel.execute is [Rejected REJ_OPERATION] for InvalidOperationError and
+   [Rejected REJ_COERCION] when collect_fields rejects @skip/@include
+   arguments.  The latter is rendered as the root-collection abort (data:
+   null + the CoercionError); C04's model carries no node for it, and still
+   has the pre-fix behaviour for a rejection inside a sub-selection (whole
+   request rejected, where the code now reports an error of the enclosing
+   field). *)
+Definition directive_coercion_error : gql_error := ELocated [] [] None.
+
 Definition pipeline_exec (doc : str) (fr : front) (ex : result) : outcome json :=
   if front_early fr then
-    pipeline_model doc (Stages (fr_parse fr) (fr_validation fr) None [] [] no_exec)
+    pipeline_model doc (Stages (fr_parse fr) (fr_validation fr) None [] [] [] no_exec)
   else
     match ex with
-    | Rejected _ _ =>                      (* InvalidOperationError from get_operation_with_type *)
-        pipeline_model doc (Stages None [] (Some []) [] [] no_exec)
+    | Rejected k _ =>
+        if k =? REJ_OPERATION
+        then pipeline_model doc (Stages None [] (Some []) [] [] [] no_exec)
+        else match fr_varcoercion fr with
+             | _ :: _ => pipeline_model doc (Stages None [] None (fr_varcoercion fr) [] [] no_exec)
+             | [] => pipeline_model doc (Stages None [] None [] [directive_coercion_error] [] no_exec)
+             end
     | _ =>
         match fr_varcoercion fr with
-        | _ :: _ => pipeline_model doc (Stages None [] None (fr_varcoercion fr) [] no_exec)
+        | _ :: _ => pipeline_model doc (Stages None [] None (fr_varcoercion fr) [] [] no_exec)
         | [] =>
             match ex with
             | Ok (d, es) =>
-                pipeline_model doc (Stages None [] None [] [] (pv_to_json d, map conv_err es))
+                pipeline_model doc (Stages None [] None [] [] [] (pv_to_json d, map conv_err es))
             | Crash k => Crash k           (* unexpected exception / RuntimeError escapes *)
             | OutOfFuel => OutOfFuel
             | Rejected k p => Rejected k p
